@@ -67,13 +67,20 @@ func RunTruncBig(seed int64, all bool) (out []Ev) {
 	P := mk(nil)
 	defer P.Close()
 	rows := 2*16384 - rnd.Intn(50)
+	// the string payload of one block is about 1.2 MB or (every other seed) about 2.7 MB: in the second case the
+	// compressed stream is certain to have a frame that ends exactly where a block ends (large single writes are
+	// flushed as frames of their own), so that a cut there leaves a well-formed stream announcing more blocks
+	noteLen := 60
+	if seed%2 == 0 {
+		noteLen = 150
+	}
 	P.Query(func(txn *column.Txn) error {
 		for i := 0; i < rows; i++ {
 			txn.Insert(func(r column.Row) error {
 				r.SetInt16("age", int16(i%90))
 				r.SetFloat64("score", float64(i)*1.5)
 				r.SetEnum("name", fmt.Sprintf("n%d", i%7))
-				b := make([]byte, 60+rnd.Intn(20))
+				b := make([]byte, noteLen+rnd.Intn(20))
 				for j := range b {
 					b[j] = byte('a' + rnd.Intn(26))
 				}
@@ -110,7 +117,7 @@ func RunTruncBig(seed int64, all bool) (out []Ev) {
 	w.T.Log(Ev{"e": "pref", "items": ref.items, "nb": 2, "bytes": len(blob), "frames": len(frameBoundaries(blob))})
 	cuts := map[int]bool{0: true, len(blob): true, len(blob) - 1: true}
 	for _, f := range frameBoundaries(blob) {
-		for d := -1; d <= 1; d++ {
+		for d := -2; d <= 2; d++ {
 			if f+d >= 0 && f+d <= len(blob) {
 				cuts[f+d] = true
 			}
